@@ -18,7 +18,7 @@ from engine import symex as sx
 from engine.runner import Spec
 
 PKG = "verif_c14_autopkg"
-LAYOUT = {"m1": ["A", "B"], "m2": ["C"], "m3": ["D"]}
+LAYOUT = {"m1": ["A", "B"], "m2": ["C"], "m3": ["D"], "m4": ["B"], "m5": ["B"]}  # m4, m5 define more classes named B
 _DIR = {}
 
 
@@ -33,17 +33,18 @@ def ensure_pkg():
         src = "import verif_c14_reg as R\n"
         src += f"if R.flag('{m}.importfail'): raise RuntimeError('import {m}')\n"
         for cn in classes:
+            tag = cn if m not in ("m4", "m5") else cn + m[1]  # registry tag: unique per class object
             src += f'''
 class {cn}:
-    if R.flag('{cn}.named'): MODE_NAME = R.name('{cn}')
-    DISABLED = R.flag('{cn}.disabled')
-    DEFAULT = R.flag('{cn}.default')
+    if R.flag('{tag}.named'): MODE_NAME = R.name('{tag}')
+    DISABLED = R.flag('{tag}.disabled')
+    DEFAULT = R.flag('{tag}.default')
     def __init__(self):
-        R.LOG.append(('init', '{cn}'))
-        if R.flag('{cn}.ctorfail'): raise RuntimeError('ctor {cn}')
-    def on_enable(self): R.LOG.append(('on_enable', '{cn}'))
-    def on_iteration(self, t): R.LOG.append(('on_iteration', '{cn}', t))
-    def on_disable(self): R.LOG.append(('on_disable', '{cn}'))
+        R.LOG.append(('init', '{tag}'))
+        if R.flag('{tag}.ctorfail'): raise RuntimeError('ctor {tag}')
+    def on_enable(self): R.LOG.append(('on_enable', '{tag}'))
+    def on_iteration(self, t): R.LOG.append(('on_iteration', '{tag}', t))
+    def on_disable(self): R.LOG.append(('on_disable', '{tag}'))
 '''
         src += "class Helper:\n    pass\n"
         with open(os.path.join(pkg, m + ".py"), "w") as f:
@@ -76,7 +77,7 @@ class Reg:
         return self.flags[n]
 
     def name(self, cn):
-        if cn == "B" and self.flag("B.dupname"):
+        if cn in ("B", "B4", "B5") and self.flag(cn + ".dupname"):
             return "A"
         return cn
 
@@ -173,9 +174,10 @@ def path(c, job):
         s = None
     fms = bool(env.fms)
     F = reg.flags
-    classes = [cn for mn in modules for cn in LAYOUT[mn]]
+    tags = {mn: [cn if mn not in ("m4", "m5") else cn + mn[1] for cn in LAYOUT[mn]] for mn in LAYOUT}
+    classes = [cn for mn in modules for cn in tags[mn]]
     imp_fail = [mn for mn in modules if F.get(f"{mn}.importfail")]
-    loaded = [cn for mn in modules if mn not in imp_fail for cn in LAYOUT[mn]]
+    loaded = [cn for mn in modules if mn not in imp_fail for cn in tags[mn]]
     cand = [cn for cn in loaded if F.get(f"{cn}.named") and not F.get(f"{cn}.disabled")]
     healthy = [cn for cn in cand if not F.get(f"{cn}.ctorfail")]
     names = {cn: reg.name(cn) for cn in healthy}
@@ -200,7 +202,8 @@ def path(c, job):
     # exactly the candidate classes are instantiated, once each
     c.prove("C14.scan instantiates-exactly-the-named-enabled-classes-once", sorted(inits) == sorted(cand), info=dict(inits=inits, expected=cand))
     insts = list(s.modes.values())
-    c.prove("C14.scan one-instance-per-healthy-class", sorted(type(i).__name__ for i in insts) == sorted(healthy), info=dict(got=[type(i).__name__ for i in insts], healthy=healthy))
+    c.prove("C14.scan one-instance-per-healthy-class", sorted(type(i).__name__ for i in insts) == sorted(h.rstrip("45") for h in healthy),
+            info=dict(got=[type(i).__name__ for i in insts], healthy=healthy))
     offered = s.chooser.opts
     c.prove("C14.offer none-choice", "None" in offered and offered["None"] is None)
     c.prove("C14.offer every-healthy-mode-offered", all(any(v is i for v in offered.values()) for i in insts) and len(offered) == len(insts) + 1)
@@ -275,14 +278,20 @@ def path(c, job):
                     if active:
                         c.reach("start-without-disable")
                     chosen = pick(i)
+                period_t0 = env.t
                 s.start()
                 active = started = True
                 if chosen:
                     exp.append(("on_enable", chosen))
             elif op == "periodic":
+                n_before = len(reg.LOG)
                 s.periodic()
                 if chosen and active:
                     exp.append(("on_iteration", chosen))
+                    for e in reg.LOG[n_before:]:
+                        if e[0] == "on_iteration":
+                            c.reach("elapsed-time-checked")
+                            c.prove("C14.life elapsed-time-is-time-since-period-start", sx.s_eq(e[2], env.t - period_t0), info=dict(step=i))
                 if not active:
                     c.reach("periodic-after-disable")
             else:
@@ -327,8 +336,8 @@ def mkjob(modules, lifecycle=None, K=0, N=0, fixed=None, missing=False):
     return dict(cfg=dict(modules=modules, lifecycle=lifecycle, K=K, N=N, fixed=fixed or {}, missing=missing))
 
 
-HEALTHY = {f"{cn}.{k}": v for cn in "ABCD" for k, v in (("named", True), ("disabled", False), ("ctorfail", False))}
-HEALTHY.update({"B.dupname": False, "m1.importfail": False, "m2.importfail": False, "m3.importfail": False})
+HEALTHY = {f"{cn}.{k}": v for cn in ("A", "B", "C", "D", "B4", "B5") for k, v in (("named", True), ("disabled", False), ("ctorfail", False))}
+HEALTHY.update({"B.dupname": False, "B4.dupname": False, "B5.dupname": False, "m5.importfail": False, "m1.importfail": False, "m2.importfail": False, "m3.importfail": False, "m4.importfail": False})
 
 
 class C14(Spec):
@@ -347,6 +356,10 @@ class C14(Spec):
     def jobs(self, tier):
         if tier == "quick":
             return [mkjob(["m1"]), mkjob(["m1", "m2"], fixed={"A.disabled": False, "C.disabled": False}),
+                    # three classes that may all claim the name "A", two of them sharing a class name
+                    mkjob(["m1", "m4", "m5"], fixed={"A.named": True, "A.disabled": False, "A.ctorfail": False, "B.named": True, "B4.named": True, "B5.named": True,
+                                                     "B.ctorfail": False, "B4.ctorfail": False, "B5.ctorfail": False, "B.disabled": False, "B4.disabled": False,
+                                                     "m1.importfail": False, "m4.importfail": False, "m5.importfail": False}),
                     mkjob(["m1", "m2"], lifecycle="calls", K=4, fixed=HEALTHY),
                     mkjob(["m1"], lifecycle="run", N=3, fixed=HEALTHY), mkjob([], missing=True)]
         return [mkjob(["m1", "m2"]), mkjob(["m1", "m2", "m3"], fixed={"A.named": True, "A.disabled": False, "A.ctorfail": False, "D.disabled": False}),
@@ -358,7 +371,7 @@ class C14(Spec):
 
     def reach_required(self, tier):
         return ["package-missing", "faulty-no-fms", "tolerated-with-fms", "healthy-package", "one-default", "dashboard-selects", "run-period",
-                "periodic-after-disable", "mode-chosen", "none-chosen", "two-iterations", "second-period", "start-without-disable", "disable-inside-run"]
+                "periodic-after-disable", "mode-chosen", "none-chosen", "two-iterations", "second-period", "start-without-disable", "disable-inside-run", "elapsed-time-checked"]
 
     def path_fn(self, c, job):
         path(c, job)
